@@ -67,56 +67,44 @@ def valJson : Val → Json
   | .sp A => obj (("kind", Json.str "sp") :: spJson A)
   | .ad v J => obj [("kind", Json.str "ad"), ("v", ofRats v), ("jac", obj (spJson J))]
 
-def decide' (p : Prop) [Decidable p] : Bool := decide p
+abbrev St := Env × List Stmt
 
-/-- the decidable content of `Core.Good` (reported for the input statistics) -/
-def goodB (c : Core) : Bool :=
-  c.dom.length == c.ran.length && decide' c.ran.Nodup && c.ran.all (· < c.ranSize) &&
-  (!c.isOnto || (c.ran == List.range c.dom.length && c.ranSize == c.dom.length)) &&
-  decide' c.dom.Nodup && c.dom.all (· < c.domSize)
+def built (st : St) (s : Stmt) : R (St × Json) :=
+  match build st.1 s with
+  | some (i, .ok S) => pure ((((i, S) :: st.1), s :: st.2), obj [("slicer", slicerJson S), ("good", Json.bool S.core.goodB)])
+  | some (_, .error e) => pure ((st.1, s :: st.2), errJson e)
+  | none => throw "not a constructing statement"
 
-def built (env : Env) (i : Nat) (r : Except Err Slicer) : Env × Json :=
-  match r with
-  | .ok S => ((i, S) :: env, obj [("slicer", slicerJson S), ("good", Json.bool (goodB S.core))])
-  | .error e => (env, errJson e)
-
-def step (env : Env) (j : Json) : R (Env × Json) := do
+def step (st : St) (j : Json) : R (St × Json) := do
+  let env := st.1
   let op ← fStr j "op"
   match op with
-  | "new" =>
-    let s := Stmt.new (← fNat j "i") (← fOptNats j "dom") (← fOptNats j "ran") (← fOptNat j "rsize") (← fOptNat j "dsize")
-    match build env s with
-    | some (i, r) => pure (built env i r)
-    | none => throw "new"
-  | "copy" =>
-    match build env (.copy (← fNat j "i") (← fNat j "j")) with
-    | some (i, r) => pure (built env i r)
-    | none => throw "copy"
-  | "T" =>
-    match build env (.transp (← fNat j "i") (← fNat j "j")) with
-    | some (i, r) => pure (built env i r)
-    | none => throw "T"
-  | "rop" =>
-    let a ← parseConst (← field j "a")
-    let o ← parseOp (← fStr j "sym")
-    match build env (.rop (← fNat j "i") (← fNat j "j") a o) with
-    | some (i, r) => pure (built env i r)
-    | none => throw "rop"
-  | "chain" =>
-    match build env (.chain (← fNat j "i") (← fNat j "j") (← fNat j "k")) with
-    | some (i, r) => pure (built env i r)
-    | none => throw "chain"
+  | "new" => built st (.new (← fNat j "i") (← fOptNats j "dom") (← fOptNats j "ran") (← fOptNat j "rsize") (← fOptNat j "dsize"))
+  | "copy" => built st (.copy (← fNat j "i") (← fNat j "j"))
+  | "T" => built st (.transp (← fNat j "i") (← fNat j "j"))
+  | "TP" => built st (.transpP (← fNat j "i") (← fNat j "j"))
+  | "rop" => built st (.rop (← fNat j "i") (← fNat j "j") (← parseConst (← field j "a")) (← parseOp (← fStr j "sym")))
+  | "chain" => built st (.chain (← fNat j "i") (← fNat j "j") (← fNat j "k"))
   | "apply" =>
     let y ← parseVal (← field j "y")
-    match lookup env (← fNat j "j") >>= fun S => S.apply y with
-    | .ok v => pure (env, valJson v)
-    | .error e => pure (env, errJson e)
+    let jj ← fNat j "j"
+    let st' : St := (env, .apply jj y :: st.2)
+    match lookup env jj >>= fun S => S.apply y with
+    | .ok v => pure (st', valJson v)
+    | .error e => pure (st', errJson e)
+  | "unsup" =>
+    -- S * x, S / x, S + x, S - x, S ** x, -S, S @ <unsupported type>
+    match lookup env (← fNat j "j") with
+    | .ok S => pure (st, errJson S.forbidden)
+    | .error e => pure (st, errJson e)
   | "dump" =>
     let vars := (env.map (·.1)).eraseDups
     let entries := vars.filterMap (fun i => match lookup env i with
       | .ok S => some (obj [("i", ofNat i), ("slicer", slicerJson S)])
       | .error _ => none)
-    pure (env, ofList id entries)
+    let prog := st.2.reverse
+    pure (st, obj [("slicers", ofList id entries), ("progGood", Json.bool (progGoodB prog)),
+                   ("progWf", Json.bool (progWfB prog))])
   | _ => throw s!"unknown op {op}"
 
-def main : IO Unit := runDriver ([] : Env) step
+def main : IO Unit := runDriver (([], []) : St) step
